@@ -1,7 +1,7 @@
 ------------------------------- MODULE TraceC19 -------------------------------
 (* Trace specification for C19: sampling from the stabilizer group, the      *)
 (* density-matrix expansion, binary_repr, and classical-shadow snapshots.    *)
-EXTENDS StabSem, TraceBase
+EXTENDS Circuit, StabSem, TraceBase
 
 TRows(t) == DecRows(t.rows)
 TOK(t)  == TableauOK(TRows(t), t.r) /\ DensityOK(TRows(t), t.r)
@@ -57,5 +57,12 @@ SnapshotOK == (Rec.op = "shadow" /\ Done) =>
     /\ \A j \in 1..Len(gens) : Strip(gens[j]) \in S1 \/ Neg(Strip(gens[j])) \in S1
     /\ \E outs \in [1..Len(gens) -> 0..1] :
           LET sem == SemMeasureList(B, gens, outs, Len(gens)) IN sem.ok /\ sem.S = S1
+\* ... and for a circuit of known gates (records carrying the program the circuit consists of AT THE TIME of the call,
+\* whatever was compiled, sampled, copied or appended before): the measurement basis is the computational basis
+\* evolved backward through exactly that program -- every U^-1 Z_q U stabilizes the prior POVM state
+PovmOK == (Rec.op = "shadow" /\ Done /\ Has("prog")) =>
+    LET n == Len(Rec.povm.rows) \div 2  prog == DecProg(Rec.prog) IN
+    /\ Rec.povm.r = 0 /\ TOK(Rec.povm)
+    /\ \A q \in 1..n : Backward(prog, ZOp(q, n)) \in TGrp(Rec.povm)
 NoCrash19 == ~Has("exc")
 =============================================================================
